@@ -129,10 +129,33 @@ func checkRendererConstruction(c *report.Ctx) {
 }
 
 func checkHeaderWiring(c *report.Ctx) {
-	rh := fn(c, "L/rapi/rendering", "renderInvokeHeaders")
 	rre := fn(c, "L/rapi/rendering", "(*InvokeRenderer).RenderRuntimeEvent")
-	if rh == nil || rre == nil {
+	if rre == nil {
 		return
+	}
+	// the headers are set by the renderer itself or by the helpers of its package it calls (renderInvokeHeaders in
+	// the pinned tree): the rule reads the Header.Set calls wherever they are
+	rh := rre
+	setters := []*ssa.Function{rre}
+	seenF := map[*ssa.Function]bool{rre: true}
+	for i := 0; i < len(setters) && i < 16; i++ {
+		an.AllInstrs(setters[i], func(in ssa.Instruction) {
+			if call, ok := in.(ssa.CallInstruction); ok {
+				if sc := call.Common().StaticCallee(); sc != nil && !seenF[sc] && len(sc.Blocks) > 0 && strings.HasPrefix(an.FuncName(sc), "L/rapi/rendering.") {
+					seenF[sc] = true
+					setters = append(setters, sc)
+				}
+			}
+		})
+	}
+	var setCalls []ssa.CallInstruction
+	for _, g := range setters {
+		if cs := an.CallsTo(g, "net/http.Header.Set"); len(cs) > 0 {
+			setCalls = append(setCalls, cs...)
+			if g != rre {
+				rh = g
+			}
+		}
 	}
 	w := newWire(c, nil, map[string]int{"strconv.ParseInt": 0, "strconv.FormatInt": 0, "L/metering.MonoToEpoch": 0})
 	w.ConstArith = true
@@ -145,7 +168,7 @@ func checkHeaderWiring(c *report.Ctx) {
 	got := map[string][]string{}
 	// (the local helper that skips empty values is looked through by the normal form, whether it is a
 	// closure or a package-level function: the rule reads the Header.Set calls themselves)
-	for _, call := range an.CallsTo(rh, "net/http.Header.Set") {
+	for _, call := range setCalls {
 		args := call.Common().Args
 		if len(args) != 3 {
 			continue
